@@ -194,6 +194,18 @@ func (c *ColumnImage) MarshalJSON() ([]byte, error) {
 	if c == nil || c.Value == nil {
 		return json.Marshal(*c)
 	}
+	value := c.JSONValue()
+	return json.Marshal(&columnImageAlias{
+		KeyType:    c.KeyType,
+		ColumnName: c.ColumnName,
+		ColumnType: c.ColumnType,
+		Value:      value,
+	})
+}
+
+// JSONValue returns the column value in the form in which it is written to
+// JSON (by the json and by the protobuf undo log parser).
+func (c *ColumnImage) JSONValue() interface{} {
 	value := c.Value
 	if t, ok := c.Value.(time.Time); ok {
 		value = t.Format(time.RFC3339Nano)
@@ -202,16 +214,76 @@ func (c *ColumnImage) MarshalJSON() ([]byte, error) {
 	case JDBCTypeChar, JDBCTypeVarchar, JDBCTypeLongVarchar:
 		// text is always written as a JSON string (a []byte would be written
 		// as base64, which cannot be told apart from text when reading)
-		if rv := reflect.ValueOf(value); rv.Kind() == reflect.Slice && rv.Type().Elem().Kind() == reflect.Uint8 {
+		if rv := reflect.ValueOf(value); rv.IsValid() && rv.Kind() == reflect.Slice && rv.Type().Elem().Kind() == reflect.Uint8 {
 			value = string(rv.Bytes())
 		}
 	}
-	return json.Marshal(&columnImageAlias{
-		KeyType:    c.KeyType,
-		ColumnName: c.ColumnName,
-		ColumnType: c.ColumnType,
-		Value:      value,
-	})
+	return value
+}
+
+// ConvertJSONValue turns a value decoded from JSON (numbers as json.Number)
+// back into the Go value of a column of the given JDBC type.
+func ConvertJSONValue(columnType JDBCType, value interface{}) (actualValue interface{}, err error) {
+	if value == nil {
+		return nil, nil
+	}
+	switch columnType {
+	case JDBCTypeReal: // 4 Bytes
+		f, err := jsonNumberToFloat64(value)
+		if err != nil {
+			return nil, err
+		}
+		actualValue = float32(f)
+	case JDBCTypeDecimal, JDBCTypeDouble: // 8 Bytes
+		if actualValue, err = jsonNumberToFloat64(value); err != nil {
+			return nil, err
+		}
+	case JDBCTypeTinyInt: // 1 Bytes
+		n, err := jsonNumberToInt64(value)
+		if err != nil {
+			return nil, err
+		}
+		actualValue = int8(n)
+	case JDBCTypeSmallInt: // 2 Bytes
+		n, err := jsonNumberToInt64(value)
+		if err != nil {
+			return nil, err
+		}
+		actualValue = int16(n)
+	case JDBCTypeInteger: // 4 Bytes
+		n, err := jsonNumberToInt64(value)
+		if err != nil {
+			return nil, err
+		}
+		actualValue = int32(n)
+	case JDBCTypeBigInt: // 8Bytes
+		if actualValue, err = jsonNumberToInt64(value); err != nil {
+			return nil, err
+		}
+	case JDBCTypeTimestamp, JDBCTypeDate, JDBCTypeTime:
+		str, ok := value.(string)
+		if !ok {
+			return nil, fmt.Errorf("undo log image value %v is not a time", value)
+		}
+		if actualValue, err = time.Parse(time.RFC3339Nano, str); err != nil {
+			return nil, err
+		}
+	case JDBCTypeChar, JDBCTypeVarchar, JDBCTypeLongVarchar:
+		str, ok := value.(string)
+		if !ok {
+			return nil, fmt.Errorf("undo log image value %v is not a string", value)
+		}
+		actualValue = str
+	case JDBCTypeBinary, JDBCTypeVarBinary, JDBCTypeLongVarBinary, JDBCTypeBit:
+		// binary values are written as base64 by encoding/json
+		actualValue = value
+		if str, ok := value.(string); ok {
+			if val, derr := base64.StdEncoding.DecodeString(str); derr == nil {
+				actualValue = val
+			}
+		}
+	}
+	return actualValue, nil
 }
 
 func (c *ColumnImage) UnmarshalJSON(data []byte) error {
@@ -239,66 +311,8 @@ func (c *ColumnImage) UnmarshalJSON(data []byte) error {
 	columnName = tmpImage["name"].(string)
 	value = tmpImage["value"]
 
-	if value != nil {
-		switch JDBCType(columnType) {
-		case JDBCTypeReal: // 4 Bytes
-			f, err := jsonNumberToFloat64(value)
-			if err != nil {
-				return err
-			}
-			actualValue = float32(f)
-		case JDBCTypeDecimal, JDBCTypeDouble: // 8 Bytes
-			if actualValue, err = jsonNumberToFloat64(value); err != nil {
-				return err
-			}
-		case JDBCTypeTinyInt: // 1 Bytes
-			n, err := jsonNumberToInt64(value)
-			if err != nil {
-				return err
-			}
-			actualValue = int8(n)
-		case JDBCTypeSmallInt: // 2 Bytes
-			n, err := jsonNumberToInt64(value)
-			if err != nil {
-				return err
-			}
-			actualValue = int16(n)
-		case JDBCTypeInteger: // 4 Bytes
-			n, err := jsonNumberToInt64(value)
-			if err != nil {
-				return err
-			}
-			actualValue = int32(n)
-		case JDBCTypeBigInt: // 8Bytes
-			if actualValue, err = jsonNumberToInt64(value); err != nil {
-				return err
-			}
-		case JDBCTypeTimestamp: // 4 Bytes
-			actualValue, err = time.Parse(time.RFC3339Nano, value.(string))
-			if err != nil {
-				return err
-			}
-		case JDBCTypeDate: // 3Bytes
-			actualValue, err = time.Parse(time.RFC3339Nano, value.(string))
-			if err != nil {
-				return err
-			}
-		case JDBCTypeTime: // 3Bytes
-			actualValue, err = time.Parse(time.RFC3339Nano, value.(string))
-			if err != nil {
-				return err
-			}
-		case JDBCTypeChar, JDBCTypeVarchar, JDBCTypeLongVarchar:
-			actualValue = value.(string)
-		case JDBCTypeBinary, JDBCTypeVarBinary, JDBCTypeLongVarBinary, JDBCTypeBit:
-			// binary values are written as base64 by encoding/json
-			actualValue = value
-			if str, ok := value.(string); ok {
-				if val, derr := base64.StdEncoding.DecodeString(str); derr == nil {
-					actualValue = val
-				}
-			}
-		}
+	if actualValue, err = ConvertJSONValue(JDBCType(columnType), value); err != nil {
+		return err
 	}
 	*c = ColumnImage{
 		KeyType:    ParseIndexType(keyType),
